@@ -322,6 +322,10 @@ _CACHED_PROJECT_ROOT: Path | None = None
 def get_ignore_parser(project_root: Path | None = None) -> IgnoreDirectiveParser:
     """Get cached ignore parser instance (singleton pattern for performance)."""
     global _CACHED_PARSER, _CACHED_PROJECT_ROOT  # pylint: disable=global-statement
+    # Rules ask for "the" parser without knowing the project root: give them the one the
+    # orchestrator created for the project, not one for whatever the working directory is
+    if project_root is None and _CACHED_PARSER is not None:
+        return _CACHED_PARSER
     effective_root = project_root or Path.cwd()
     if _CACHED_PARSER is None or _CACHED_PROJECT_ROOT != effective_root:
         _CACHED_PARSER = IgnoreDirectiveParser(effective_root)
